@@ -70,6 +70,7 @@ PROP_MODELS = {
     'C16': ['sqrt', 'mutableseq'],
     'C01': ['mutableseq'],
     'C02': ['mutableseq'],
+    'C17': ['trig', 'numpy.small', 'mutableseq'],
     'C08': ['sqrt', 'numpy.poly1d', 'numpy.roots', 'mutableseq'],
     'C14': ['numpy.poly1d', 'numpy.small', 'mutableseq'],
     'C09': ['mutableseq'],
@@ -78,6 +79,8 @@ PROP_MODELS = {
 }
 
 PROP_NOTES = {
+    'C17': ["xml.etree model: Element.get; iterfind('svg:x', ns) yields the children whose tag is '{ns}x' in document order; iter() pre-order; iterparse yields ('start', e)/('end', e) in document order",
+            "LEX for attribute strings: the numbers found in a transform-list item / a points attribute are arbitrary values (cut)"],
     'C01': ["LEX: formatting a finite double with str.format and tokenising the result with COMMAND_RE.split + FLOAT_RE.findall inside a string assembled from the repo's literal templates gives back one token whose float() is that double; .lower() does not change it"],
     'C02': ["LEX is decided by the bounded lexer stand-in (exhaustive to length 6), not proved"],
     'C06': ["scipy.integrate.quad(f,a,b): an uninterpreted value >= 0; its accuracy is not assumed, so nothing about accuracy is proved",
